@@ -446,3 +446,76 @@ def r4(cx):
 import witness
 witness.add(RS, 'C12.R2w', ['c12_jobrefmut_assign', 'c12_jobrefmut_pid'],
             'compile-fail witness: a listed job\'s state or pid cannot be assigned through JobRefMut (E0594); the reading twin compiles')
+
+
+# ---------------------------------------------------------------- added after wave-2 seeded changes
+SUSPENDED_TESTS = ['yash_env::job::Job::is_suspended', 'yash_env::job::ProcessState::is_stopped', 'yash_env::job::ProcessResult::is_stopped']
+
+
+@RS.rule('C12.R5', 'K-GUARD', 'update_status: whether the current/previous job is reselected depends only on the suspended -> not suspended '
+         '(or reverse) transition of the job, not on which particular state it went to')
+def r5(cx):
+    F = cx.F
+    fn = JL + 'update_status'
+    body = F.inlined(F.body(fn))
+    cx.fn(body.fn)
+    du = Q.DefUse(body)
+    state_w = [blk for blk, j, s, kind, f in Q.field_writes(body, 'yash_env::job::Job', 'state')]
+    cx.require(state_w, 'update_status does not write Job::state')
+    # locals that are plain copies / borrows of the `state` parameter
+    params = [l for l in range(1, body.argc + 1) if 'ProcessState' in body.locals[l]['ty']]
+    cx.require(len(params) == 1, 'update_status has no single ProcessState parameter')
+    copies = set(params)
+    changed = True
+    while changed:
+        changed = False
+        for blk, j, s in body.stmts():
+            if s['k'] == 'assign' and not s['lhs'].get('p') and s['lhs']['l'] not in copies and s['rv']['k'] in ('use', 'ref'):
+                src = Q.operand_place(s['rv']['o']) if s['rv']['k'] == 'use' else s['rv']['pl']
+                if src is not None and src['l'] in copies:
+                    copies.add(s['lhs']['l'])
+                    changed = True
+
+    def state_derived(org):
+        if org['k'] == 'call':
+            if Q.callee_is(org['t'], SUSPENDED_TESTS):
+                return False
+            return any((Q.operand_place(a) or {}).get('l') in copies for a in org['t']['a'])
+        if org['k'] in ('discr', 'place'):
+            return org['pl']['l'] in copies
+        if org['k'] in ('binop', 'unop'):
+            return any((Q.operand_place(o) or {}).get('l') in copies for o in (org['rv'].get('a'), org['rv'].get('b'), org['rv'].get('o')) if o)
+        return False
+
+    writes = []
+    for fld in ('current_job_index', 'previous_job_index'):
+        for blk, j, s, kind, f in Q.field_writes(body, JOBLIST, fld):
+            writes.append((fld, blk, s))
+    cx.require(len(writes) >= 3, 'update_status no longer reselects the current/previous job (found %d writes)' % len(writes))
+    for fld, blk, s in writes:
+        cs = Q.implied_conditions(F, body, du, blk)
+        susp = []
+        for org, lab, e in cs:
+            if org['k'] == 'call' and Q.callee_is(org['t'], SUSPENDED_TESTS) and lab[0] == 'bool':
+                cb = org['b']
+                if all(body.dominates(w, cb) for w in state_w):
+                    susp.append(('after', lab[1], cb))
+                elif all(body.dominates(cb, w) for w in state_w):
+                    susp.append(('before', lab[1], cb))
+        extra = [org for org, lab, e in cs if state_derived(org)]
+        # the test of the updated job is the first one after the state is stored (later ones look at other jobs)
+        trans = {}
+        for when in ('before', 'after'):
+            c = [(lab, cb) for w2, lab, cb in susp if w2 == when]
+            first = [(lab, cb) for lab, cb in c if all(body.dominates(cb, cb2) for _, cb2 in c)]
+            if first:
+                trans[when] = first[0][0]
+        cx.site('%s: write of %s at %s under suspended-before=%s, suspended-after=%s, state-specific tests: %d'
+                % (body.fn, fld, body.loc(s), trans.get('before'), trans.get('after'), len(extra)))
+        if trans.get('before') is None or trans.get('after') is None or trans['before'] == trans['after']:
+            cx.violation(fn, 'reselect-not-on-transition:%s' % fld, 'the %s is changed without testing that the job went from suspended to not '
+                         'suspended or back (Job::is_suspended before and after the state is stored)' % fld, loc=body.loc(s))
+        if extra:
+            cx.violation(fn, 'reselect-state-specific:%s' % fld, 'the reselection of the %s additionally depends on which state the job '
+                         'went to (a test on the `state` argument): a suspended current/previous job that is killed or exits (not '
+                         '"Running") is not replaced, so %%+ / %%- designate a dead job while suspended jobs exist' % fld, loc=body.loc(s))
